@@ -7,12 +7,12 @@ VERIF = os.path.dirname(os.path.dirname(os.path.abspath(__file__)))
 
 COMMON_NOTE = ("Trusted: Coq 8.16.1 kernel; no axioms (Print Assumptions output is recorded per theorem in the "
                "evidence; the thorough tier re-checks the compiled theorems with coqchk -o and records its axiom summary); hand-written Gallina model tied to /repo by regenerated tables (harness/gen_tables.py), by "
-               "re-translation of yarl/_path.py, of yarl/_query.py, of unsplit_result / make_netloc / split_netloc (yarl/_parse.py) and of the constructors encode_url / pre_encoded_url / build_pre_encoded_url / from_parts_uncached, __str__ / __eq__ / ordering operators / accessors / modifiers / query operations / join (yarl/_url.py) from the source with proofs of equality to the model (harness/gen_model.py; C15_source_*, C07_source_*) "
+               "re-translation of yarl/_path.py, of yarl/_query.py, of unsplit_result / make_netloc / split_netloc (yarl/_parse.py) and of the constructors encode_url / pre_encoded_url / build / build_pre_encoded_url / from_parts_uncached, __str__ / __eq__ / ordering operators / accessors / modifiers / query operations / join (yarl/_url.py) from the source with proofs of equality to the model (harness/gen_model.py; C15_source_*, C07_source_*) "
                "and by a differential correspondence check of the extracted model (ExtrOcamlBasic only) against "
                "both quoting backends built from the working tree; extracted theorem predicates applied to the "
                "implementation's outputs.")
 
-TECH = ("Coq proof (Rocq 8.16.1, kernel-checked, no axioms) over a hand-written Gallina model; tie to the source: tables regenerated from /repo each run, Python-ast-to-Gallina re-translation of _path.py, unsplit_result, make_netloc, encode_url, pre_encoded_url, __str__, __eq__, the ordering operators, 30 accessors, 13 modifiers, the four query operations, _make_child, joinpath, /, join, human_repr, build_pre_encoded_url, from_parts_uncached, split_netloc, _encode_host, the four functions of _query.py and three pinned library wrappers (77 functions) with equality proofs, "
+TECH = ("Coq proof (Rocq 8.16.1, kernel-checked, no axioms) over a hand-written Gallina model; tie to the source: tables regenerated from /repo each run, Python-ast-to-Gallina re-translation of _path.py, unsplit_result, make_netloc, encode_url, pre_encoded_url, __str__, __eq__, the ordering operators, 30 accessors, 13 modifiers, the four query operations, _make_child, joinpath, /, join, human_repr, build, build_pre_encoded_url, from_parts_uncached, split_netloc, _encode_host, the four functions of _query.py and three pinned library wrappers (78 functions) with equality proofs, "
         "extracted-model differential correspondence against both backends, extracted theorem predicates evaluated on the implementation's outputs")
 
 CHECKS = {
